@@ -739,6 +739,23 @@ def impure_sources(repo):
                 bad.append({"file": fn, "line": n.lineno, "what": "os.path.relpath without start (relative to the working directory)"})
             if isinstance(n, ast.Call) and isinstance(n.func, ast.Name) and n.func.id in ("id", "hash"):
                 bad.append({"file": fn, "line": n.lineno, "what": "%s() call" % n.func.id})
+            # sorted(collection, key=<folding key>): elements the key cannot tell apart keep the order of the collection --
+            # deterministic for a list or a dict, hash-seed dependent for a set.  Flagged when the module builds sets that
+            # are stored in containers (setdefault(k, set()) / x[k] = set() / .add on a stored value)
+            if isinstance(n, ast.Call) and isinstance(n.func, ast.Name) and n.func.id == "sorted" and n.args:
+                key = next((k.value for k in n.keywords if k.arg == "key"), None)
+                folding = key is not None and any(w in ast.unparse(key) for w in ("upper", "lower", "casefold", "len", "[0]"))
+                if folding and not isinstance(n.args[0], (ast.List, ast.Tuple, ast.Dict)) and not (
+                        isinstance(n.args[0], ast.Call) and isinstance(n.args[0].func, ast.Attribute) and n.args[0].func.attr in ("keys", "items", "values")):
+                    stored_sets = [x for x in ast.walk(tree) if isinstance(x, ast.Call) and isinstance(x.func, ast.Attribute)
+                                   and x.func.attr == "setdefault" and len(x.args) == 2 and (
+                                       (isinstance(x.args[1], ast.Call) and isinstance(x.args[1].func, ast.Name) and x.args[1].func.id == "set")
+                                       or isinstance(x.args[1], ast.Set))]
+                    if stored_sets:
+                        bad.append({"file": fn, "line": n.lineno,
+                                    "what": "sorted(%s, key=%s): a key that ties on different elements, over a collection that may be one of the "
+                                            "sets this module stores (line %d): ties fall back to hash order" % (
+                                                ast.unparse(n.args[0])[:30], ast.unparse(key)[:20], stored_sets[0].lineno)})
             # a set handed to something that fixes an order: list(set(..)), tuple(..), sep.join(..), x.extend(..), enumerate(..)
             if isinstance(n, ast.Call):
                 fname = n.func.id if isinstance(n.func, ast.Name) else n.func.attr if isinstance(n.func, ast.Attribute) else ""
